@@ -1,14 +1,14 @@
 CONSTANTS
-  MinKeys = 0
+  MinKeys = 3
   MaxKeys = 3
   NI = 4
   MaxRF = 3
-  Shape = "any"
+  Shape = "quorum"
   Grain = "call"
   Gate = FALSE
   EmptyFix = TRUE
   AllowCancel = TRUE
-  EarlyExits = TRUE
+  EarlyExits = FALSE
   MaxConc = 3
   Record = FALSE
 SPECIFICATION Spec
